@@ -372,6 +372,73 @@ fn interleave_case(rep: &mut Report, seed: u64, idx: u64, exhaustive_small: bool
     rep.sample_class(if exhaustive_small && total <= 10 { "interleave/exhaustive" } else { "interleave/sampled" }, desc);
 }
 
+/// A writer that fails its k-th write once (EINTR and other transient errors are legal for a `Write`).
+struct FaultyWriter {
+    writes: Vec<Vec<u8>>,
+    fail_at: usize,
+    kind: std::io::ErrorKind,
+    calls: usize,
+}
+impl std::io::Write for FaultyWriter {
+    fn write(&mut self, buf: &[u8]) -> std::io::Result<usize> {
+        let n = self.calls;
+        self.calls += 1;
+        if n == self.fail_at {
+            return Err(std::io::Error::new(self.kind, "injected"));
+        }
+        self.writes.push(buf.to_vec());
+        Ok(buf.len())
+    }
+    fn flush(&mut self) -> std::io::Result<()> {
+        Ok(())
+    }
+}
+
+/// The sender over a writer that fails once: `send` either reports the failure, or - having reported
+/// success - has written the whole packet sequence.
+fn faulty_writer_case(rep: &mut Report, seed: u64, idx: u64) {
+    let mut rng = Rng::derive(seed, "c16w", idx);
+    let len = *rng.pick(&[0usize, 1, 57, 58, 116, 117, 300, 1000]);
+    let payload = rng.bytes(len);
+    let channel = rng.next_u64() as u32;
+    let cmd_idx = rng.below(9);
+    let n_packets = expected_packets(len);
+    let fail_at = rng.below(n_packets);
+    let kind = *rng.pick(&[std::io::ErrorKind::Interrupted, std::io::ErrorKind::WouldBlock, std::io::ErrorKind::BrokenPipe, std::io::ErrorKind::TimedOut]);
+    let case = json!({"index": idx, "kind": "writer fails once", "payload_len": len, "packets": n_packets, "failing_write": fail_at, "error_kind": format!("{kind:?}")});
+    rep.eval();
+    rep.nontrivial(fnv(format!("fw|{len}|{fail_at}|{kind:?}").as_bytes()));
+    let reference = {
+        let mut c = Capture::default();
+        match Message::new(channel, COMMANDS[cmd_idx].0, &payload) {
+            Ok(m) => {
+                let _ = m.send(&mut c);
+            }
+            Err(_) => return,
+        }
+        c.writes
+    };
+    let r = catch(|| {
+        let m = Message::new(channel, COMMANDS[cmd_idx].0, &payload).ok()?;
+        let mut w = FaultyWriter { writes: Vec::new(), fail_at, kind, calls: 0 };
+        let ok = m.send(&mut w).is_ok();
+        Some((ok, w.writes))
+    });
+    match r {
+        Err((sig, d)) => rep.violate(&format!("sender {sig}"), d, case),
+        Ok(None) => {}
+        Ok(Some((ok, writes))) => {
+            rep.count("faulty_writer_cases");
+            if ok && writes != reference {
+                rep.violate("send reported success although the packet sequence it wrote is incomplete", format!("{} of {} packets written after a write failed once with {kind:?}", writes.len(), reference.len()), case.clone());
+            }
+            if !ok && !reference.starts_with(&writes) {
+                rep.violate("send failed and what it had written is not a prefix of the message's packets", format!("{} writes", writes.len()), case);
+            }
+        }
+    }
+}
+
 pub fn run(args: &Args) -> Report {
     let mut rep = Report::new(
         "C16",
@@ -442,6 +509,12 @@ pub fn run(args: &Args) -> Report {
         }
     }
     if !miri {
+        for k in 0..args.size(200, 3000) as u64 {
+            let idx = 30_000_000 + k;
+            if only.map_or(true, |o| o == idx) {
+                faulty_writer_case(&mut rep, args.seed, idx);
+            }
+        }
         for k in 0..args.size(300, 6000) as u64 {
             let idx = 20_000_000 + k;
             if only.map_or(true, |o| o == idx) {
